@@ -23,6 +23,193 @@ def getter_expr(facts, tname, g):
     return fn, v
 
 
+def writers_of(facts, tname, field):
+    """[(method, assignment node)] for every `self.<field> = ..` / `op=` in the type's methods"""
+    out = []
+    for im in facts.impls_of(tname, "*"):
+        for fn in im["fns"]:
+            if fn.get("body") and fn.get("receiver") == "&mut self":
+                for x in walk(fn["body"]):
+                    if x.get("k") in ("assign", "opassign") and ir.is_self_field(x["l"]) and x["l"]["name"] == field:
+                        out.append((fn, x))
+    return out
+
+
+def guarded_by_le(fn, node, lhs_nbit):
+    """the upper bound E such that `node` executes only when `<lhs> <= E` held (then-branch of a conjunction containing it),
+    or only when `<lhs> > E` did not (else-branch of a disjunction containing it)"""
+    hits = ir.locate(fn["body"], lambda x: x is node)
+    if not hits:
+        return None
+
+    def atoms(c, op):
+        c = ir_strip(c)
+        if c.get("k") == "bin" and c["op"] == op:
+            return atoms(c["l"], op) + atoms(c["r"], op)
+        return [c]
+    for c in hits[0][2]:
+        if c.get("k") != "if":
+            continue
+        in_then = any(y is node for y in walk(c["then"]))
+        if in_then:
+            for a in atoms(c["c"], "&&"):
+                if a.get("k") == "bin" and a["op"] == "<=" and nbit(a["l"]) == lhs_nbit:
+                    return a["r"]
+                if a.get("k") == "bin" and a["op"] == ">=" and nbit(a["r"]) == lhs_nbit:
+                    return a["l"]
+        elif c.get("else") is not None and any(y is node for y in walk(c["else"])):
+            for a in atoms(c["c"], "||"):
+                if a.get("k") == "bin" and a["op"] == ">" and nbit(a["l"]) == lhs_nbit:
+                    return a["r"]
+                if a.get("k") == "bin" and a["op"] == "<" and nbit(a["r"]) == lhs_nbit:
+                    return a["l"]
+    # an earlier statement `if A || B { return Err(..) }` (no else) dominates: none of its disjuncts held
+    for s in ir.earlier_stmts(hits[0][1]):
+        e = s.get("e") if s.get("k") in ("semi", "expr") else None
+        if e is None or e.get("k") != "if" or e.get("else") is not None:
+            continue
+        body = e["then"]["stmts"]
+        last = body[-1].get("e") if body and body[-1].get("k") in ("semi", "expr") else None
+        if last is None or last.get("k") != "return" or not show(last.get("e") or {}).startswith("Err("):
+            continue
+        for a in atoms(e["c"], "||"):
+            if a.get("k") == "bin" and a["op"] == ">" and nbit(a["l"]) == lhs_nbit:
+                return a["r"]
+            if a.get("k") == "bin" and a["op"] == "<" and nbit(a["r"]) == lhs_nbit:
+                return a["l"]
+    return None
+
+
+def ir_strip(e):
+    while isinstance(e, dict) and e.get("k") == "paren":
+        e = e["e"]
+    return e
+
+
+def state_invariants(rep, tname):
+    """[(nbit lower, nbit upper, reason)]: upper bounds of state fields, each established by *every* writer of the field."""
+    facts = rep.ctx.facts
+    cfn, cst, inits = ctor_state(facts, tname)
+    inv = []
+    fields = {f["name"] for f in facts.need_struct(tname)["fields"]}
+    # chunk_size ≤ max_chunk_size
+    if {"chunk_size", "max_chunk_size"} <= fields and "max_chunk_size" in immutable_fields(facts, tname):
+        ok = nbit(inits.get("chunk_size")) == nbit(inits.get("max_chunk_size"))
+        for fn, x in writers_of(facts, tname, "chunk_size"):
+            if x["k"] == "assign" and nbit(x["r"]) == "self.max_chunk_size":
+                continue
+            b = guarded_by_le(fn, x, nbit(x["r"])) if x["k"] == "assign" else None
+            ok = ok and b is not None and nbit(b) == "self.max_chunk_size"
+        if ok:
+            inv.append(("self.chunk_size", "self.max_chunk_size", "constructor stores the same value in both; set_chunk_size assigns only under `chunksize <= self.max_chunk_size`"))
+    # ratio fields ≤ the bound expression of the setters' accept test
+    if {"resample_ratio", "target_ratio", "resample_ratio_original", "max_relative_ratio"} <= fields:
+        bound = None
+        ok = True
+        allowed_copy = {"self.target_ratio", "self.resample_ratio", "self.resample_ratio_original"}
+        for f in ("resample_ratio", "target_ratio"):
+            for fn, x in writers_of(facts, tname, f):
+                if x["k"] != "assign":
+                    # the per-frame ramp update inside process_into_buffer works on a local copy; an op-assign on the field itself is not understood
+                    ok = False
+                    continue
+                r = ir_strip(x["r"])
+                if nbit(r) in allowed_copy:
+                    continue
+                b = guarded_by_le(fn, x, nbit(r))
+                if b is None and is_path(r):
+                    # relative setter: new_ratio = original * rel, stored under `rel <= self.max_relative_ratio`
+                    bd = ir.binding_of(fn, r, r["p"])
+                    init = ir_strip(bd[1].get("init")) if bd and bd[0] == "let" else None
+                    if init is not None and init.get("k") == "bin" and init["op"] == "*":
+                        for o, rel in ((init["l"], init["r"]), (init["r"], init["l"])):
+                            if nbit(o) == "self.resample_ratio_original":
+                                br = guarded_by_le(fn, x, nbit(rel))
+                                if br is not None and nbit(br) == "self.max_relative_ratio":
+                                    b = N_mul(o, br)
+                if b is None:
+                    ok = False
+                    continue
+                if bound is None:
+                    bound = b
+                ok = ok and nbit(b) == nbit(bound)
+        # the initial / reset value `original` is ≤ original·max_relative because the constructor rejects max_relative < 1
+        ctor_checks = any(x.get("k") == "bin" and x["op"] == "<" and nbit(x["r"]) in ("f:1", "f:1.0") for x in walk(facts.free_fn(RESAMPLERS[tname]["mod"], "validate_ratios")["body"])) \
+            if facts.free_fn(RESAMPLERS[tname]["mod"], "validate_ratios") else False
+        if ok and bound is not None and ctor_checks and nbit(bound) in ("(self.max_relative_ratio * self.resample_ratio_original)", "(self.resample_ratio_original * self.max_relative_ratio)"):
+            why = "every store of the field is either a copy of another bounded field or happens under the setter's test `new_ratio <= %s`" % show(bound)
+            inv.append(("self.resample_ratio", nbit(bound), why))
+            inv.append(("self.target_ratio", nbit(bound), why))
+    return inv
+
+
+def N_mul(a, b):
+    return ir.N("bin", op="*", l=a, r=b, ln=0)
+
+
+def rule_next_le_max(rep, tname):
+    import mono
+    facts = rep.ctx.facts
+    R = "R-C04-next-le-max"
+    info = RESAMPLERS[tname]
+    inv = state_invariants(rep, tname)
+    for side in ("input", "output"):
+        key = "%s/%s" % (tname, side)
+        if info["async"] and info["fixed"] == "out" and side == "input":
+            rep.ob(R, key, True, "decided by R-C04-max-bound (needed_input_size is state; its supremum is bounded with one frame of slack)", "src/" + info["file"])
+            continue
+        fn_n, nxt = getter_expr(facts, tname, side + "_frames_next")
+        fn_m, mx = getter_expr(facts, tname, side + "_frames_max")
+        leaf = list(inv)
+        extra = ""
+        if info["family"] == "fft":
+            import fftmodel
+            m = fftmodel.extract(facts, tname)
+            cfn, cst, inits = ctor_state(facts, tname)
+            if is_self_field_expr(nxt) and nxt["name"] in m["final"].fields and nxt["name"] not in immutable_fields(facts, tname):
+                # `next` is a state field: compare its end-of-call formula (and the constructor's) with max
+                f = nxt["name"]
+                cands = [("end of call", m["final"].fields[f])]
+                mo = mono.Mono(leaf)
+                oks = []
+                for label, e in cands:
+                    oks.append((label, mo.le(e, mx), show(e)[:120]))
+                # constructor / reset value: expressed over fields by R-C10-restore; here: bit-identical to max after the alias table
+                alias = alias_table(facts, tname)
+                rep.ob(R, key, all(o for _, o, _ in oks),
+                       "%s() returns the field `%s`; its value after every call is %s, which must be ≤ %s() = %s by monotone composition [%s]" %
+                       (side + "_frames_next", f, oks[0][2], side + "_frames_max", show(mx)[:100], "; ".join(mo.trace[:4])), loc(fn_m))
+                continue
+            if tname == "FftFixedIn" and side == "output":
+                # saved_frames ≤ fft_size_in − 1: after every call it is a − ⌊a/d⌋·d (a remainder), 0 after construction / reset
+                sf = m["final"].fields.get("saved_frames")
+                rem = False
+                if sf is not None:
+                    s = ir_strip(sf)
+                    if s.get("k") == "bin" and s["op"] == "-":
+                        b = ir_strip(s["r"])
+                        if b.get("k") == "bin" and b["op"] == "*":
+                            for u, v in ((b["l"], b["r"]), (b["r"], b["l"])):
+                                u = ir_strip(u)
+                                if u.get("k") == "call" and is_path(u["f"]) and u["f"]["p"].split("::")[-1] == "div_floor" and nbit(u["args"][0]) == nbit(s["l"]) \
+                                        and nbit(u["args"][1]) == nbit(v) == "self.fft_size_in":
+                                    rem = True
+                init0 = nbit(inits.get("saved_frames")) == "i:0"
+                if rem and init0:
+                    leaf.append(("self.saved_frames", "(self.fft_size_in - i:1)", "saved_frames is 0 after construction/reset and a remainder modulo fft_size_in after every call (fft_size_in ≥ 1: R-C03-arith)"))
+        mo = mono.Mono(leaf)
+        ok = mo.le(nxt, mx)
+        rep.ob(R, key, ok,
+               "%s_frames_next() = %s must be ≤ %s_frames_max() = %s for the stored floating-point values: proved by monotone composition (same shape, each operand bounded: %s)%s" %
+               (side, show(nxt)[:110], side, show(mx)[:110], "; ".join(mo.trace[:4]) or "bit-identical",
+                "" if ok else " - NOT proved: the two products are associated differently or an operand is not bounded by a state invariant, so rounding can put next above max"),
+               loc(fn_m), sample={"type": tname, "side": side, "next": show(nxt)[:120], "max": show(mx)[:120]})
+
+
+def is_self_field_expr(e):
+    return ir.is_self_field(e)
+
+
 def alias_table(facts, tname):
     """immutable fields with bit-identical constructor initialisers form an alias class -> {field: representative}"""
     cfn, cst, inits = ctor_state(facts, tname)
@@ -318,6 +505,11 @@ def run(rep):
                 rule_outbound(rep, t, m)
         rep.guarded("R-C04-agree", one)
     rep.guarded("R-C04-fft-formulas", rule_fft_siblings)
+    for t in RESAMPLERS:
+        rep.guarded("R-C04-next-le-max", lambda r, t=t: rule_next_le_max(r, t))
+    rep.floor("R-C04-next-le-max", 14)
+    rep.clause("R-C04-next-le-max", "for each type and side, *_frames_next() ≤ *_frames_max() as computed in floating point: monotone composition over bit-identical shapes, with operand "
+                                    "bounds taken from state invariants whose two sides are exactly the expressions compared in the setters' accept tests")
     rep.guarded("R-C04-allocate", rule_allocate)
     import C16
     rep.guarded("R-C16-process", C16.rule_process)
